@@ -123,9 +123,32 @@ def _batch(run, prog, cls, method, original):
     for ev, ctx in body:
         if isinstance(ev, ir.SubStore) and ev.key == elem and ("sub", ev.cont, elem) in ir.subterms(ev.value):
             acc = ev
+    subst_back = None
+    if acc is None:
+        # credits collected during the walk and handed out by a second pass over the same chain (the engine pairs the
+        # elements of `zip(chain, credits)` with the values computed for them in the walk)
+        for lp2, ctx2 in walk(O.body, structural=True):
+            if isinstance(lp2, ir.Loop) and not lp2.comp and lp2 is not L and lp2.iter == L.iter and \
+                    [l for l in ctx2.loops if not l.comp] == []:
+                e2 = ("elem", lp2.lid)
+                for ev, ctx in direct_events(lp2):
+                    if isinstance(ev, ir.SubStore) and ev.key == e2 and ("sub", ev.cont, e2) in ir.subterms(ev.value):
+                        from .common import substitute
+                        acc = ev._replace(key=elem, value=substitute(ev.value, {e2: elem}))
+                        subst_back = lp2
     if acc is None:
         # credits collected in a list during the walk and handed out afterwards: not followed -- no verdict
         credit = ("op", "-", mu, nxt)
+        lists = [ev.recv for ev, _ in body if isinstance(ev, ir.Mut) and ev.method == "append" and ev.args]
+        for lp2, ctx2 in walk(O.body, structural=True):
+            if isinstance(lp2, ir.Loop) and not lp2.comp and lp2.iter[0] == "fn" and lp2.iter[1] == "zip" and \
+                    len(lp2.iter[2]) == 2 and lp2.iter[2][1] in lists and lp2.iter[2][0] != L.iter:
+                run.fail("TELESCOPE", f"{method}.accumulate", W(lp2.line), fq,
+                         f"credits paired with {ir.show_nl(lp2.iter[2][0])[:80]}",
+                         f"the credits collected along the chain are handed out by pairing them with "
+                         f"{ir.show_nl(lp2.iter[2][0])[:100]}, not with the chain they were computed for: features receive "
+                         f"the credit of whichever feature was revealed at their position")
+                return
         if any(isinstance(ev, ir.Mut) and ev.method == "append" and ev.args and same(ev.args[0], credit) for ev, _ in body):
             raise AnalysisError(f"{fq}: the credits of a chain are collected in a list and added to the accumulators "
                                 f"after the walk; this bookkeeping is not decided")
